@@ -9,6 +9,8 @@ the C06 models talk about, and the Python failure points of the mirrored code.
   ('block', 'flow'), ('running()', x)   (strs block flow)        `Val.strs ["block", "flow"]`
   {'underline', 'overline'}  (set)      (strs overline underline) sorted
   ('PIXELS', 12), ('NUMBER', 3/2)       (tag PIXELS 12)          `Val.tagged "PIXELS" 12`
+  None                                  (null)                   `Val.null`
+  (Dimension, 'auto'), ((…), (…))       (tup v1 v2 …)            `Val.tup [v1, v2, …]`   (any other tuple)
 
 `isinstance(value, int)` is modelled as "the number has denominator 1": the harnesses never pass an
 integral-valued `Fraction` / `float` where the code tests for `int`.
@@ -24,22 +26,91 @@ inductive Val where
   | num (q : Rat)
   | strs (l : List String)
   | tagged (tag : String) (q : Rat)
-  deriving Repr, DecidableEq, Inhabited
+  /-- `None` -/
+  | null
+  /-- a tuple that is not a flat tuple of strings: `(Dimension, Dimension)`, `(('left', d, 'top', d),)` … -/
+  | tup (l : List Val)
+  deriving Repr, Inhabited
 
 namespace Val
+
+mutual
+/-- Structural equality test (the derive handler does not support the nested `List Val`). -/
+def beq : Val → Val → Bool
+  | .kw a, .kw b => a == b
+  | .dim q u, .dim q' u' => q == q' && u == u'
+  | .num q, .num q' => q == q'
+  | .strs l, .strs l' => l == l'
+  | .tagged t q, .tagged t' q' => t == t' && q == q'
+  | .null, .null => true
+  | .tup l, .tup l' => beqList l l'
+  | _, _ => false
+def beqList : List Val → List Val → Bool
+  | [], [] => true
+  | a :: as, b :: bs => beq a b && beqList as bs
+  | _, _ => false
+end
+
+instance : BEq Val := ⟨beq⟩
+
+mutual
+theorem eq_of_beq : ∀ (a b : Val), beq a b = true → a = b
+  | .kw a, .kw b, h => by simp [beq] at h; rw [h]
+  | .dim q u, .dim q' u', h => by simp [beq] at h; rw [h.1, h.2]
+  | .num q, .num q', h => by simp [beq] at h; rw [h]
+  | .strs l, .strs l', h => by simp [beq] at h; rw [h]
+  | .tagged t q, .tagged t' q', h => by simp [beq] at h; rw [h.1, h.2]
+  | .null, .null, _ => rfl
+  | .tup l, .tup l', h => by
+      simp only [beq] at h
+      rw [eq_of_beqList l l' h]
+  | .kw _, .dim .., h | .kw _, .num _, h | .kw _, .strs _, h | .kw _, .tagged .., h | .kw _, .null, h | .kw _, .tup _, h
+  | .dim .., .kw _, h | .dim .., .num _, h | .dim .., .strs _, h | .dim .., .tagged .., h | .dim .., .null, h | .dim .., .tup _, h
+  | .num _, .kw _, h | .num _, .dim .., h | .num _, .strs _, h | .num _, .tagged .., h | .num _, .null, h | .num _, .tup _, h
+  | .strs _, .kw _, h | .strs _, .dim .., h | .strs _, .num _, h | .strs _, .tagged .., h | .strs _, .null, h | .strs _, .tup _, h
+  | .tagged .., .kw _, h | .tagged .., .dim .., h | .tagged .., .num _, h | .tagged .., .strs _, h | .tagged .., .null, h | .tagged .., .tup _, h
+  | .null, .kw _, h | .null, .dim .., h | .null, .num _, h | .null, .strs _, h | .null, .tagged .., h | .null, .tup _, h
+  | .tup _, .kw _, h | .tup _, .dim .., h | .tup _, .num _, h | .tup _, .strs _, h | .tup _, .tagged .., h | .tup _, .null, h => by
+      simp [beq] at h
+theorem eq_of_beqList : ∀ (l l' : List Val), beqList l l' = true → l = l'
+  | [], [], _ => rfl
+  | a :: as, b :: bs, h => by
+      simp only [beqList, Bool.and_eq_true] at h
+      rw [eq_of_beq a b h.1, eq_of_beqList as bs h.2]
+  | [], _ :: _, h => by simp [beqList] at h
+  | _ :: _, [], h => by simp [beqList] at h
+end
+
+mutual
+theorem beq_self : ∀ (a : Val), beq a a = true
+  | .kw _ | .num _ | .strs _ | .null => by simp [beq]
+  | .dim .. | .tagged .. => by simp [beq]
+  | .tup l => by simp only [beq]; exact beqList_self l
+theorem beqList_self : ∀ (l : List Val), beqList l l = true
+  | [] => rfl
+  | a :: as => by simp only [beqList, beq_self a, beqList_self as, Bool.and_self]
+end
+
+instance : DecidableEq Val := fun a b =>
+  if h : beq a b = true then isTrue (eq_of_beq a b h)
+  else isFalse (fun e => h (e ▸ beq_self a))
+
 
 /-- Parentheses cannot be part of an atom: `running()` travels as `running[]`. -/
 def unesc (s : String) : String := (s.replace "[" "(").replace "]" ")"
 
-def ofSx? : Sx → Option Val
+partial def ofSx? : Sx → Option Val
   | .list [.atom "kw", .atom s] => some (.kw (unesc s))
   | .list [.atom "kw"] => some (.kw "")
   | .list [.atom "dim", q, .atom u] => q.rat?.map (fun q => .dim q (unesc u))
   | .list [.atom "num", q] => q.rat?.map .num
   | .list (.atom "strs" :: xs) => (allSome Sx.atom? xs).map (fun l => .strs (l.map unesc))
   | .list [.atom "tag", .atom t, q] => q.rat?.map (fun q => .tagged (unesc t) q)
+  | .list [.atom "null"] => some .null
+  | .list (.atom "tup" :: xs) => (allSome ofSx? xs).map .tup
   | _ => none
 
+mutual
 /-- Canonical text (the harness prints the implementation's value the same way). -/
 def render : Val → String
   | .kw s => "kw:" ++ s
@@ -47,6 +118,13 @@ def render : Val → String
   | .num q => "num:" ++ showRat q
   | .strs l => "strs:" ++ ",".intercalate l
   | .tagged t q => "tag:" ++ t ++ ":" ++ showRat q
+  | .null => "null"
+  | .tup l => "tup[" ++ renderList l ++ "]"
+def renderList : List Val → String
+  | [] => ""
+  | [v] => render v
+  | v :: rest => render v ++ "|" ++ renderList rest
+end
 
 def isKw (v : Val) (s : String) : Bool :=
   match v with
@@ -64,6 +142,8 @@ inductive CErr where
   | typeError (site : String)
   | overflow (site : String)
   | indexError (site : String)
+  | valueError (site : String)
+  | unboundLocal (site : String)
   | unsupported (what : String)   -- outside the modelled fragment: never a Python outcome
   deriving Repr, DecidableEq
 
@@ -75,6 +155,8 @@ def CErr.render : CErr → String
   | .typeError _ => "err:TypeError"
   | .overflow _ => "err:OverflowError"
   | .indexError _ => "err:IndexError"
+  | .valueError _ => "err:ValueError"
+  | .unboundLocal _ => "err:UnboundLocalError"
   | .unsupported w => "unsupported:" ++ w
 
 def renderExcept {α} (f : α → String) : Except CErr α → String
